@@ -131,6 +131,7 @@ func init() {
 			}, serverRouteKey)
 			RunRouterMiddleware(c, "E7.router.middleware", []string{"op"})
 			RunIssuerCoverage(c, "E7.routes.issuer-interceptor", []string{"KeysEndpoint"})
+			RunFieldSetOnlyIn(c, "E6.provider-endpoints-set-once", "op", "Provider", "endpoints", []string{"op.NewProvider"}, "the endpoints a Provider advertises are the ones its router was built with: the pointer is set during construction only")
 			RunNoFieldWriters(c, "E6.checksession-unwritten", "op", "Endpoints", "CheckSessionIframe", "check_session_iframe is advertised from this field but no route exists: a writer needs a route")
 			RunCallers(c, "E8.issuer.id-token-table", "op.CreateIDToken", []string{"op.CreateTokenResponse", "op.CreateDeviceTokenResponse", "op.CreateTokenExchangeResponse"}, "every ID token is issued with IssuerFromContext(ctx)")
 			RunCallers(c, "E8.issuer.jwt-table", "op.CreateJWT", []string{"op.CreateAccessToken"}, "every JWT access token is issued with IssuerFromContext(ctx)")
